@@ -72,7 +72,7 @@ def G(id, tu, fn, props, ins=(), setup='', call=None, ret=None, pre=None, post=N
       replace=(), loops=False, split=None, solvers=('cadical',), timeout=300, flags=(),
       min_obl=1, must=('postcondition',), unwind=None, bounded=None, enforce=True,
       native=True, tier='quick', body=None, extra_replace=(), note='', nondet_static=False,
-      sweep=None, reach=True, defs=(), direct=False):
+      sweep=None, reach=True, defs=(), direct=False, fix=None, loopinv=None):
     """Register an obligation group.
     ins: list of (ctype, name) scalar harness inputs (named in_*).
     setup: C statements building the real argument values from the inputs.
@@ -87,14 +87,34 @@ def G(id, tu, fn, props, ins=(), setup='', call=None, ret=None, pre=None, post=N
                       solvers=list(solvers), timeout=timeout, flags=list(flags), min_obl=min_obl,
                       must=list(must), unwind=unwind, bounded=bounded, enforce=enforce, native=native,
                       tier=tier, body=body, note=note, nondet_static=nondet_static, sweep=sweep,
-                      reach=reach, defs=list(defs), direct=direct)
+                      reach=reach, defs=list(defs), direct=direct, fix=dict(fix or {}), loopinv=loopinv)
     ORDER.append(id)
+
+
+def ysplit(var, n=16, lo=1601, hi=4096):
+    """n-way case split of a year-valued harness expression (harness-level assume, never in the contract)"""
+    step = (hi - lo + n) // n
+    out = []
+    for i in range(n):
+        a, b = lo + i * step, min(lo + (i + 1) * step - 1, hi)
+        if a <= b:
+            out.append(('%02d' % i, '(%s) >= %d && (%s) <= %d' % (var, a, var, b)))
+    return out
+
+
+def GS(id, tu, fn, props, splits, **kw):
+    """register one group per split piece; a piece is (suffix, predicate) or (suffix, {var: value}) for split-by-assignment"""
+    for sfx, pred in splits:
+        if isinstance(pred, dict):
+            G('%s.%s' % (id, sfx), tu, fn, props, fix=pred, **kw)
+        else:
+            G('%s.%s' % (id, sfx), tu, fn, props, split=pred, **kw)
 
 
 def load_registry():
     if GROUPS:
         return
-    env = dict(TU=TU, G=G, REPO=REPO, ROOT=ROOT, LIB_CFLAGS=LIB_CFLAGS, SRC_CFLAGS=SRC_CFLAGS)
+    env = dict(TU=TU, G=G, GS=GS, ysplit=ysplit, REPO=REPO, ROOT=ROOT, LIB_CFLAGS=LIB_CFLAGS, SRC_CFLAGS=SRC_CFLAGS)
     for f in sorted(glob.glob(os.path.join(ROOT, 'obligations', '*.py'))):
         with open(f) as fh:
             exec(compile(fh.read(), f, 'exec'), dict(env))
@@ -134,6 +154,8 @@ def closure(prop, tier):
     while todo:
         g = todo.pop()
         for fn in g['replace']:
+            if '/UNREACH_' in fn:
+                continue  # requires(false) contract: replacing asserts the call is unreachable, nothing is assumed
             es = enforcers_of(fn, g['tu'])
             if not es:
                 missing.append((g['id'], fn))
@@ -169,6 +191,8 @@ def harness_text(g, known, reach=False):
     else:
         for (ty, nm) in g['ins']:
             L.append('\t%s %s;' % (ty, nm))
+        for k, v in g['fix'].items():
+            L.append('\t%s = %s; /* case split by assignment (lets symex prune the other branches) */' % (k, v))
         if g['setup']:
             L.append('\t' + g['setup'])
     if g['split']:
@@ -272,7 +296,9 @@ def native_text(g, known, values=None, sweep=0, seed=0):
         L.append('\tfor (long it = 0; it < %dL; it++) {' % sweep)
         sw = g['sweep'] or {}
         for (ty, nm) in g['ins']:
-            if nm in sw:
+            if nm in g['fix']:
+                L.append('\t\t%s = (%s)(%s);' % (nm, ty, g['fix'][nm]))
+            elif nm in sw:
                 L.append('\t\t%s = (%s)(%s);' % (nm, ty, sw[nm].replace('RND', 'vf_rnd()')))
             else:
                 L.append('\t\t%s = (%s)vf_rnd();' % (nm, ty))
@@ -388,6 +414,66 @@ def trace_inputs(trace):
     return vals
 
 
+# ---------------------------------------------------------------- loop contracts (kept in /verif, attached by loop ordinal)
+def make_loop_file(ctx, g, gb, c):
+    """loopinv = {function: [dict(id=<loop ordinal>, inv=<C expr>, dec=<C expr>|None, assigns=<str>|None, vars={name: symbol})]}
+    The invariant text is macro-expanded with the spec headers (goto-instrument does not preprocess it) and local
+    variable names are mapped to the symbols of the current goto binary (fails -> undecided, never a violation)."""
+    t = TUS[g['tu']]
+    src = os.path.join(ctx.work, 'lc_%s.c' % c)
+    exprs = []
+    for fn, loops in g['loopinv'].items():
+        for lp in loops:
+            exprs.append(lp['inv'])
+            exprs.append(lp.get('dec') or '0')
+    with open(src, 'w') as f:
+        for p in t['pre']:
+            if p.startswith('spec/'):
+                f.write('#include "%s/%s"\n' % (ROOT, p))
+        f.write('#include "%s/spec/iso.h"\n' % ROOT)
+        for i, e in enumerate(exprs):
+            f.write('VERIF_EXPAND_%d %s\n' % (i, e.replace('\n', ' ')))
+    rc, out, _ = run(['gcc', '-E', '-P', src], timeout=60)
+    if rc != 0:
+        return None, out[-500:]
+    exp = {}
+    for l in out.splitlines():
+        m = re.match(r'VERIF_EXPAND_(\d+) (.*)$', l)
+        if m:
+            exp[int(m.group(1))] = m.group(2).strip()
+    rc, st, _ = run(['goto-instrument', '--show-symbol-table', gb], timeout=120)
+    syms = re.findall(r'^Symbol\.+: (\S+)$', st, re.M)
+    funcs = []
+    k = 0
+    for fn, loops in g['loopinv'].items():
+        ent = []
+        for lp in loops:
+            inv, dec = exp[k], exp[k + 1]
+            k += 2
+            names = set(re.findall(r'\b[A-Za-z_]\w*\b(?!\s*\()', inv + ' ' + dec + ' ' + (lp.get('assigns') or '')))
+            smap = []
+            for n in sorted(names):
+                if n in (lp.get('vars') or {}):
+                    smap.append('%s,%s' % (n, lp['vars'][n]))
+                    continue
+                cands = [x for x in syms if x == '%s::%s' % (fn, n) or re.match(r'^%s::(\d+::)+%s$' % (re.escape(fn), re.escape(n)), x)]
+                if len(cands) == 1:
+                    smap.append('%s,%s' % (n, cands[0]))
+                elif len(cands) > 1:
+                    return None, 'ambiguous local %s in %s: %s (give vars= mapping)' % (n, fn, cands)
+            e = {'loop_id': str(lp['id']), 'invariants': inv, 'symbol_map': ';'.join(smap)}
+            if lp.get('dec'):
+                e['decreases'] = dec
+            if lp.get('assigns'):
+                e['assigns'] = lp['assigns']
+            ent.append(e)
+        funcs.append({fn: ent})
+    lf = os.path.join(ctx.work, 'lc_%s.json' % c)
+    with open(lf, 'w') as f:
+        json.dump({'sources': [], 'functions': funcs}, f, indent=1)
+    return lf, ''
+
+
 # ---------------------------------------------------------------- the run of one group
 class Ctx:
     def __init__(self, work, tier, seed, known, verbose):
@@ -436,8 +522,13 @@ def run_group(ctx, g, obj):
             cmd += ['--enforce-contract', g['fn']]
         for r in g['replace']:
             cmd += ['--replace-call-with-contract', r]
-        if g['loops']:
+        if g['loops'] or g['loopinv']:
             cmd += ['--apply-loop-contracts']
+        if g['loopinv']:
+            lf, err = make_loop_file(ctx, g, a, c)
+            if lf is None:
+                return None, 'loop contract file: ' + err
+            cmd += ['--loop-contracts-file', lf]
         if g['nondet_static']:
             cmd += ['--nondet-static']
         cmd += [a, b]
@@ -546,7 +637,7 @@ def run_group(ctx, g, obj):
         if not any(m in p for p in props):
             res['reason'] = 'vacuity: no obligation matching %r generated (contract dropped?)' % m
             return res
-    if g['loops'] and not any('loop_invariant_step' in p or 'loop_invariant_base' in p for p in props):
+    if (g['loops'] or g['loopinv']) and not any('loop_invariant_step' in p or 'loop_invariant_base' in p for p in props):
         res['reason'] = 'vacuity: loop contracts requested but no loop_invariant obligations generated'
         return res
     if len(user) < g['min_obl']:
@@ -656,6 +747,9 @@ def check_property(pid, tier, seed, verbose=False, only=None, keep=False):
     os.makedirs(replay_dir, exist_ok=True)
     undecided, violations, kf_lines = [], [], []
     results = []
+    if not only:
+        for f in glob.glob(os.path.join(replay_dir, '%s_*.json' % pid)):
+            os.unlink(f)
     try:
         if not groups:
             undecided.append('no obligation groups registered for %s' % pid)
@@ -688,7 +782,7 @@ def check_property(pid, tier, seed, verbose=False, only=None, keep=False):
 
         def one(g):
             r = run_group(ctx, g, objs[g['tu']])
-            ctx.log('[%s] %-40s %-9s %6.1fs %s %s' % (pid, g['id'], r['status'], r['secs'], r.get('solver') or '', (r['reason'] or '')[:200].replace('\n', ' ')))
+            ctx.log('[%s] %-40s %-9s %6.1fs solve=%5.1fs %s %s' % (pid, g['id'], r['status'], r['secs'], r.get('solver_secs', 0.0), r.get('solver') or '', (r['reason'] or '')[:200].replace('\n', ' ')))
             return r
         with ThreadPoolExecutor(max_workers=NCPU) as ex:
             results = list(ex.map(one, order))
